@@ -350,12 +350,16 @@ def runEngine (s0 : Scn) : List String := Id.run do
   return out
 
 /-- C01 Spec monitor on implementation observations: `mon i=<op> tid=<n> pre=<tok|-> ev=<e> out=<ok|err:exc> post=<tok|->` -/
-def runC01Mon (s : Scn) : List String :=
-  let m := s.machine
-  s.raw.toList.filterMap fun toks =>
+def runC01Mon (s0 : Scn) : List String :=
+  -- registry form: variant k = the machine after the first k late `add_listener` calls (`var=<k>` on the line)
+  let allv := if s0.sdecls.isEmpty then s0.variants.push s0.states else s0.regVariants
+  s0.raw.toList.filterMap fun toks =>
     match toks with
     | "mon" :: rest =>
       let kv := kvs rest
+      let k := natOf (look kv "var")
+      let s : Scn := { s0 with states := allv[min k (allv.size - 1)]! }
+      let m := s.machine
       let tid := natOf (look kv "tid")
       let ev := natOf (look kv "ev")
       let pre := optNat (look kv "pre")
